@@ -30,6 +30,37 @@ def walkSpec (raw : Bytes) (lim : Nat) (chain : List (Bytes × Bytes)) (_leafStr
   else if (chain.getLast?.map (·.1)) != some mimeOctet then "SPEC C02:chain-not-rooted"
   else ""
 
+def startsWithS (b : Bytes) (s : String) : Bool := hasPrefix b (ofString s)
+
+/-- C19 oracle: the implementation's verdict against the entry names read back with archive/zip -/
+def zipSpec (chain : List (Bytes × Bytes)) (names : List Bytes) : String :=
+  let leaf := (chain.head?.map (·.1)).getD []
+  let parent := ((chain.drop 1).head?.map (·.1)).getD []
+  let docx := ofString "application/vnd.openxmlformats-officedocument.wordprocessingml.document"
+  let xlsx := ofString "application/vnd.openxmlformats-officedocument.spreadsheetml.sheet"
+  let pptx := ofString "application/vnd.openxmlformats-officedocument.presentationml.presentation"
+  let jar := ofString "application/jar"
+  let apk := ofString "application/vnd.android.package-archive"
+  let zip := ofString "application/zip"
+  let six := names.take 6
+  let fam6 := fun (p : String) => six.any (fun n => startsWithS n p)
+  let famAll := fun (p : String) => names.any (fun n => startsWithS n p)
+  let apkMarkers := ["AndroidManifest.xml", "META-INF/com/android/build/gradle/app-metadata.properties", "classes.dex", "resources.arsc", "res/drawable"]
+  let first := names.head?.getD []
+  let expectO : Option Bytes := if fam6 "xl/" then some xlsx else if fam6 "word/" then some docx else if fam6 "ppt/" then some pptx else none
+  if first == ofString "[Content_Types].xml" && expectO.isSome && some leaf != expectO then "SPEC C19:ooxml-marker-among-first-six-not-reported"
+  else if first == ofString "META-INF/MANIFEST.MF" && !(apkMarkers.any fam6) && leaf != jar then "SPEC C19:jar-not-reported"
+  else if first == ofString "META-INF/MANIFEST.MF" && (apkMarkers.any fam6) && leaf != apk then "SPEC C19:apk-priority"
+  else if leaf == docx && !famAll "word/" then "SPEC C19:docx-without-marker"
+  else if leaf == xlsx && !famAll "xl/" then "SPEC C19:xlsx-without-marker"
+  else if leaf == pptx && !famAll "ppt/" then "SPEC C19:pptx-without-marker"
+  else if leaf == jar && !famAll "META-INF/MANIFEST.MF" then "SPEC C19:jar-without-marker"
+  else if leaf == apk && !(apkMarkers.any famAll) then "SPEC C19:apk-without-marker"
+  else if (leaf == docx || leaf == xlsx || leaf == pptx || leaf == jar || leaf == apk) && parent != zip then "SPEC C19:parent-not-zip"
+  else if !(famAll "word/" || famAll "xl/" || famAll "ppt/" || famAll "META-INF/MANIFEST.MF" || apkMarkers.any famAll)
+          && first != ofString "mimetype" && leaf != zip then "SPEC C19:no-marker-not-plain-zip"
+  else ""
+
 def charsetSpec (_raw : Bytes) (_goRes : String) : String := ""
 
 end Mime.Spec
